@@ -6,7 +6,7 @@ import json
 import random
 from pathlib import Path
 
-from tools import c12_extract, c12_gen, fw
+from tools import c12_extract, c12_gen, c12_rules, fw
 from tools.fw import Disagreement, Failure, Report
 
 ID = "C12"
@@ -25,7 +25,20 @@ LEVEL_TEXT = (
     "validate(max_errors=n) = first n of the unlimited list + the abort notice iff there are more, for every n including 0 "
     "(limit_prefix); traversal keys contain neither loc nor — for validate() — description (generated table); context "
     "caches return what recomputation returns (memo_pure_partial, exact characterisation memo_responses). "
-    "The ~40 concrete rules are tied by evaluating the property's relations directly on the implementation."
+    "Eleven document-only concrete rules (LoneAnonymousOperation, UniqueOperationNames, UniqueFragmentNames, UniqueVariableNames, "
+    "UniqueArgumentNames, UniqueInputFieldNames, KnownFragmentNames, NoUnusedFragments, NoFragmentCycles, NoUndefinedVariables, "
+    "NoUnusedVariables) and the context getters they call are modelled as values of the framework's rule type "
+    "(Gql/Validation/Rules.lean): never BREAK / never edit (modelled_rules_never_edit), every framework theorem instantiated for any "
+    "list of them (modelled_rules_compositional), and 'reports nothing iff a declarative predicate holds' for KnownFragmentNames, "
+    "UniqueArgumentNames, UniqueVariableNames, LoneAnonymousOperation, UniqueOperationNames, UniqueFragmentNames (…_iff_spec; the last three have "
+    "private state, the last two answer SKIP) and, through the context getters, NoUnusedVariables (…_iff_spec_partial); "
+    "get_fragment_spreads terminates (fragment_spreads_terminates_partial). "
+    "For ALL concrete rule classes (every class in validation/rules, every rule of specified_rules / specified_sdl_rules) the "
+    "non-editing half of the framework's hypothesis is a regenerated proof obligation: a table of everything each enter*/leave* method "
+    "can return (Python ast, following `return self.helper(...)`) is rewritten from the source on every run and the kernel decides that "
+    "no entry is a node or REMOVE (rules_never_edit). "
+    "The other ~30 concrete rules are otherwise tied by evaluating the property's relations directly on the implementation, including "
+    "history independence (other documents that define the names this document uses are validated against the same schema object in between)."
 )
 LEVEL_NOTE = (
     "Compositionality is proved for the framework; that each concrete rule is a deterministic non-editing visitor "
@@ -39,16 +52,24 @@ TRUSTED = [
     "hand-written Lean model Gql/Validation/Framework.lean (ParallelVisitor, TypeInfoVisitor, TypeInfo, validate) "
     "and Gql/Validation/Context.lean (context caches); tied to the code by scripted-rule correspondence runs "
     "(call sequences, TypeInfo stack depths, reported errors, abort) on the generated documents",
-    "tools/c12_extract.py (Python ast) for QUERY_DOCUMENT_KEYS, rule lists, TypeInfo push/pop table, max_errors default",
-    "the concrete rules are not modelled: they enter through the checked assumption above",
+    "tools/c12_extract.py (Python ast) for QUERY_DOCUMENT_KEYS, rule lists, TypeInfo push/pop table, max_errors default; tools/c12_rules_static.py (Python ast) for the return-value table of every rule class",
+    "hand-written Lean model Gql/Validation/Rules.lean of eleven document-only rules and of the context getters; tied to the code by running "
+    "each rule ALONE (and all together, random sub-lists, reversed order, with limits) through the real validate() on generated documents and "
+    "comparing, in order, the name quoted in each error and the identities of error.nodes (tools/c12_rules.py)",
+    "the other concrete rules are not modelled: they enter through the checked assumption above",
 ]
 ASSUMPTIONS = [
-    "each concrete rule is a deterministic non-editing visitor that reads only the document, the schema, the TypeInfo and the context getters (checked by oracles i-v on every generated case)",
+    "each concrete rule that is NOT modelled (about 30 of 41) is a deterministic visitor that reads only the document, the schema, the TypeInfo and the context getters (checked by oracles i-v and the history-independence re-run on every generated case); that none of them edits is decided on the regenerated return-value table (rules_never_edit), up to the precision of the syntactic analysis (returns of enter*/leave* methods, helpers followed two levels)",
     "the enter/leave sequence of visit() is the depth-first one with SKIP/BREAK as documented (C11)",
     "ValidationAbortedError unwinding is modelled as an immediate stop; the TypeInfo it leaves unbalanced is local to validate()",
     "rule sets range over subsets/orderings of specified_rules (resp. specified_sdl_rules); custom rules calling get_variable_usages(operation) can observe the list-extension aliasing (memo_pure_full is refuted in Lean, not a stated-clause violation)",
 ]
 EXPLANATION = (
+    "Modelled rules: modelled_rules_never_edit, modelled_rules_compositional, knownFragmentNames_iff_spec, uniqueArgumentNames_iff_spec, "
+    "uniqueVariableNames_iff_spec, loneAnonymousOperation_iff_spec, uniqueOperationNames_iff_spec, uniqueFragmentNames_iff_spec, "
+    "noUnusedVariables_iff_spec_partial, fragment_spreads_terminates_partial; correspondence: each modelled rule alone "
+    "through the real validate() vs the model on documents aimed at them (duplicate names, undefined / unused fragments and variables, self-, mutual and "
+    "long spread cycles reached from several roots, duplicate fragment definitions, fragment variables) and on all other executable documents of the run. "
     "Theorems: parallel_members, parallel_alone, parallel_alone_single_full, parallel_alone_direct(_sdl), rules_union(_sdl), rules_order, "
     "rules_order_full, rules_order_partial, typeinfo_balanced (+ tiTable_balanced / tiTable_regsReset on the generated table, "
     "typeinfo_restored_nested), limit_prefix, limit_length, loc_blind_* (generated tables), memo_responses, memo_pure_partial, "
@@ -723,6 +744,8 @@ def _check_case(case, rep, corr):
         rep.samples.append({"family": case["family"], "schema": case["schema"], "text": case["text"][:300], "errors": (full_all or [])[:3], "rule_configs": len(configs)})
 
     # correspondence with the Lean model: scripted rules through the real framework
+    if corr.get("driver") and not sdl:
+        _rules_lines({**case, "rule_limits": [None]}, doc, schema, rep, corr)
     if corr.get("driver"):
         nsc = case.get("scripted", 2)
         for _ in range(nsc):
@@ -742,6 +765,52 @@ def _check_case(case, rep, corr):
             line, out = _scripted_case(doc, schema, mode, mx, specs)
             corr["lines"].append(line)
             corr["meta"].append(({**case, "scripted_mode": mode, "scripted_max": mx, "scripted_specs": specs}, out))
+
+
+# --------------------------------------------------------------------------------------------------
+# the modelled concrete rules (lean/Gql/Validation/Rules.lean): each ALONE through the real validate() vs the model
+
+
+def _rules_lines(case, doc, schema, rep, corr, count=True):
+    """One driver line per limit: every modelled rule alone (+ all of them together, + optional extra groups)
+    through the real validate(); observables: reporting rule (by message kind), quoted name, identities of
+    error.nodes in order, the abort notice."""
+    env = _env()
+    from graphql.validation.validate import query_document_keys_to_validate as keys
+
+    words, order = c12_rules.atree_words(doc, keys)
+    tree = " ".join(words)
+    rulemap = env["rules"]
+    modelled = [r for r in c12_rules.MODELLED if r in rulemap]
+    groups = [[r] for r in modelled] + [modelled] + [g for g in case.get("extra_groups", []) if all(r in rulemap for r in g)]
+    for mx in case.get("rule_limits", [None]):
+        gs = groups if mx is None else groups[len(modelled):]
+        hit = set()
+        impl = " || ".join(c12_rules.impl_run(schema, doc, [rulemap[r] for r in g], BIG if mx is None else mx, order, hit if len(g) == 1 else None) for g in gs)
+        line = f"rules {'inf' if mx is None else mx} " + "+".join(",".join(g) if g else "0" for g in gs) + " " + tree
+        corr["lines"].append(line)
+        corr["meta"].append(({**case, "rule_groups": gs, "rule_max": mx}, impl))
+        if count and mx is None:
+            for r in hit:
+                rep.stats["modelled_errs_" + r] = rep.stats.get("modelled_errs_" + r, 0) + 1
+            rep.stats["modelled_docs"] = rep.stats.get("modelled_docs", 0) + 1
+            rep.stats["modelled_docs_clean"] = rep.stats.get("modelled_docs_clean", 0) + (0 if hit else 1)
+            if "NoFragmentCyclesRule" in hit:
+                rep.stats["modelled_docs_with_cycles"] = rep.stats.get("modelled_docs_with_cycles", 0) + 1
+
+
+def _rules_case(case, rep, corr):
+    env = _env()
+    try:
+        doc = _parse(case["text"], case)
+    except Exception:  # noqa: BLE001
+        rep.stats["unparseable"] = rep.stats.get("unparseable", 0) + 1
+        return
+    if not corr.get("driver"):
+        return
+    rep.nontrivial += 1
+    _rules_lines(case, doc, env["schemas"][case["schema"]], rep, corr)
+
 
 
 def _memo_cases(rng, n):
@@ -816,6 +885,9 @@ def _work(args):
             corr["meta"].append((case, out))
             rep.evaluations += 1
             continue
+        if case["family"] == "rules":
+            _rules_case(case, rep, corr)
+            continue
         try:
             _check_case(case, rep, corr)
         except RecursionError:
@@ -824,6 +896,18 @@ def _work(args):
         outs = fw.Driver(drv).run(corr["lines"])
         for (case, impl), line, model in zip(corr["meta"], corr["lines"], outs):
             rep.evaluations += 1
+            if line.startswith("rules "):
+                rep.stats["modelled_rule_lines"] = rep.stats.get("modelled_rule_lines", 0) + 1
+                rep.stats["modelled_rule_runs"] = rep.stats.get("modelled_rule_runs", 0) + model.count(" || ") + 1
+                if "|u 0" in model:
+                    rep.notes.append("modelled rules: node identities not unique in an encoded document")
+                model = " || ".join(c12_rules.strip_rule(x.split("|u ")[0].strip()) for x in model.split(" || "))
+                if impl != model:
+                    gi, gm = impl.split(" || "), model.split(" || ")
+                    k = next((i for i, (x, y) in enumerate(zip(gi, gm)) if x != y), 0)
+                    names = case.get("rule_groups", [])
+                    rep.disagreements.append(Disagreement("modelled rule " + ",".join(names[k] if k < len(names) else []), case, gi[k][:400] if k < len(gi) else impl[:400], gm[k][:400] if k < len(gm) else model[:400]))
+                continue
             rep.stats["scripted_runs"] = rep.stats.get("scripted_runs", 0) + 1
             if impl != model:
                 k = next((i for i, (x, y) in enumerate(zip(impl, model)) if x != y), min(len(impl), len(model)))
@@ -915,6 +999,15 @@ def _cases(ctx, n_docs, n_cfg, n_scripted):
         else:
             ext = rng.random() < 0.5
             add("sdl", 1 if ext else None, c12_gen.sdl_document(rng, rng.choice([0.0, 0.08, 0.15]), ext)[0], "ext" if ext else "new")
+    rr = ctx.sub_rng("c12-modelled-rules")
+    texts = [(t, False) for t in c12_rules.CORPUS] + [(t, True) for t in c12_rules.FRAG_ARG_CORPUS]
+    for _ in range(n_docs if n_docs > 1000 else (2 * n_docs) // 3):
+        fa = rr.random() < 0.25
+        texts.append((c12_rules.RulesGen(rr, rr.choice([0.0, 0.05, 0.15, 0.3]), fa).document(), fa))
+    for k, (text, fa) in enumerate(texts):
+        sub = rr.sample(c12_rules.MODELLED, rr.randint(0, 4))
+        cases.append({"family": "rules", "flavour": "fragargs" if fa else "plain", "schema": rr.choice([0, 1, 2]), "text": text, "frag_args": fa,
+                      "extra_groups": [sub, list(reversed(c12_rules.MODELLED))], "rule_limits": [None, rr.choice([0, 1, 2, 3, 5])], "seed": f"{ctx.seed}:r{k}"})
     for nf, nops, reqs in _memo_cases(rng, max(20, n_docs // 10)):
         cases.append({"family": "memo", "nf": nf, "nops": nops, "reqs": reqs})
     return cases
@@ -943,7 +1036,9 @@ def explore(ctx) -> Report:
         f"grammar-random, >100-error documents, SDL documents with/without a schema to extend) over 3 schemas x {n_cfg} "
         "rule configurations (all, reversed, shuffles, random subsets of specified_rules / specified_sdl_rules) x "
         "max_errors in {None,1,2,5,100}; non-trivial = the full rule set reports at least one error; each document "
-        "additionally through reprint, 2 ignored-character rewrites and added descriptions; scripted-rule runs against the model"
+        "additionally through reprint, 2 ignored-character rewrites and added descriptions; scripted-rule runs against the model; "
+        "the eleven modelled concrete rules each alone, all together, reversed, random sub-lists and with limits, real validate() vs the model, on "
+        "every executable document and on documents aimed at these rules (stats modelled_*)"
     )
     return rep
 
